@@ -234,6 +234,35 @@ def compare_sites(body):
     return out
 
 
+def arith_result(body, local, depth=4):
+    """Is `local` (following plain copies) the result of integer arithmetic (`x + 1`, `2 * x`)?  A comparison operand that
+    is, no longer states the relation between the two *sources* themselves."""
+    if local is None or depth < 0:
+        return False
+    for b in body.blocks:
+        if b["cleanup"]:
+            continue
+        for s in b["stmts"]:
+            if s["d"] != [local]:
+                continue
+            rv = s["rv"]
+            if rv["k"] == "bin" and rv["op"] not in REL_NEG:
+                return True
+            if rv["k"] == "use" and rv["a"][0] in ("cp", "mv"):
+                p = rv["a"][1]
+                if len(p) == 1 and arith_result(body, p[0], depth - 1):
+                    return True
+                if len(p) == 2 and p[1] == ".0" and arith_result(body, p[0], depth - 1):
+                    return True
+            if rv["k"] == "cast" and rv["a"][0] in ("cp", "mv") and len(rv["a"][1]) == 1 and arith_result(body, rv["a"][1][0], depth - 1):
+                return True
+        t = b["term"]
+        if t["k"] == "call" and t["d"] == [local] and any(x in (t["ncallee"] or "") for x in ("::saturating_add", "::saturating_sub", "::wrapping_add", "::wrapping_sub",
+                                                                                               "::checked_add", "::checked_sub", "::saturating_mul", "::wrapping_mul", "::checked_mul")):
+            return True
+    return False
+
+
 class CmpGuard:
     """A comparison between a value derived from source A and one derived from source B; the accepting
     edge is the one on which relation `required` (about (A, B), e.g. 'Lt' = A < B) holds.
@@ -241,8 +270,9 @@ class CmpGuard:
     src_a / src_b: functions body -> set of seed locals.
     """
 
-    def __init__(self, src_a, src_b, required, label, through="table", extra=(), close=True):
+    def __init__(self, src_a, src_b, required, label, through="table", extra=(), close=True, allow_arith=False):
         self.close = close
+        self.allow_arith = allow_arith
         self.src_a = src_a
         self.src_b = src_b
         self.required = required if isinstance(required, (list, tuple, set)) else [required]
@@ -266,6 +296,9 @@ class CmpGuard:
             elif la in B and lb in A:
                 rel = REL_SWAP[c["op"]]
             if rel is None:
+                continue
+            if not self.allow_arith and (arith_result(body, la) or arith_result(body, lb)):
+                self.found.append((c["line"], rel + " (operand is an arithmetic result: not the relation between the sources)"))
                 continue
             n += 1
             self.found.append((c["line"], rel))
@@ -726,3 +759,41 @@ def forall_over_field(self, rule, fn, field, check_pats, descr, extra_ok_checks=
 
 
 Run.forall_over_field = forall_over_field
+
+
+def _gate_here_or_in_callers(self, rule, body_path, fn_path, sink, guard, descr):
+    """The sink in `body_path` must be cut by `guard` — either inside the function, or, when the check was hoisted into
+    the callers, at *every* call site of `fn_path` in the workspace (the caller-side form of a wrapper summary)."""
+    body = self.body(rule, body_path)
+    if body is None:
+        return False
+    n, acc, rej = guard.edges(body)
+    if acc:
+        return self.gate(rule, body, sink, [[guard]], descr=descr)
+    # hoisted: every caller must gate its call
+    F = self.F
+    sites = [(b, c) for (b, c) in F.callers().get(fn_path, []) if not b.npath.startswith(fn_path)]
+    ok = bool(sites)
+    ungated = []
+    seen = set()
+    for b, c in sites:
+        if b.path in seen:
+            continue
+        seen.add(b.path)
+        prep(b)
+        g = cfg_of(b)
+        n2, acc2, _ = guard.edges(b)
+        calls = set(CallSink(fn_path).blocks(b))
+        if not acc2 or (calls & g.reach((0,), cut=acc2)):
+            ok = False
+            ungated.append(b)
+    for b in ungated:
+        self.viol(rule, "ungated-caller:%s!%s" % (self.root_path(b).split("::")[-1], guard.label),
+                  "`%s` is not checked inside %s, and its caller %s reaches the call without it" % (guard.label, fn_path.split("::")[-1], self.root_path(b)), b, b.lines[0])
+    if not sites:
+        self.viol(rule, "guard-missing:%s" % guard.label, "no deciding branch on guard `%s` in %s and no callers to check" % (guard.label, body.path), body, body.lines[0])
+    self.inst(rule, "K4w gate (in function or in all callers)", descr + " — check hoisted into callers" , len(seen), ok, {"callers": sorted(seen)})
+    return ok
+
+
+Run.gate_here_or_in_callers = _gate_here_or_in_callers
